@@ -1024,3 +1024,10 @@ mod tests {
         *edit == Deletion || *edit == Insertion
     }
 }
+
+#[cfg(dandavison_delta_verif)]
+pub mod verif {
+    pub fn tokenize<'a>(line: &'a str, regex: &regex::Regex) -> Vec<&'a str> {
+        super::tokenize(line, regex)
+    }
+}
